@@ -185,6 +185,11 @@ type Source struct {
 	OnSubscribe func(idx int, liveOthers int64, ctx context.Context)
 	// PanicInSubscribe makes the subscribe function panic with this value after playing.
 	PanicInSubscribe any
+	// Foreign makes the source deliver every notification with a context that does NOT descend from
+	// the context it was subscribed with (a fresh Background plus the per-item value), as a subject
+	// fed by an unrelated producer does: whatever downstream operators promise to attach must then
+	// really be attached by them, it cannot be inherited.
+	Foreign bool
 	// HoldSubscribe, when non-nil, makes the subscribe function of an Async source return only once
 	// this channel is closed or the player goroutine has finished: the caller of Subscribe then comes
 	// back to a subscription whose worker is already far ahead (e.g. parked inside its release).
@@ -402,7 +407,7 @@ func (s *Source) emit(idx int, n Notif) Emission {
 	if rel.Load() {
 		s.LateAsk.Add(1)
 	}
-	if ctx == nil {
+	if ctx == nil || s.Foreign {
 		ctx = context.Background()
 	}
 	ictx := context.WithValue(ctx, rec.ItemKey, tag)
